@@ -24,6 +24,7 @@ EXPLANATION = (
     "(optional label, optional logical-IF prefix, component chains, with or without argument list, "
     "all names/blank/case spellings) is matched by SUBCALL_RE or CALL_RE. Exactness of the recorded "
     "set on every executable part is not decided."
+    ' R5: EXTERNAL declarations are handled before variables are matched, and `;` splitting is exact (shared with C02.R3). R2 is decided on the event trace of _add_procedure_calls, so one combined filter test and several early `continue`s are the same thing.'
 )
 ASSUMPTIONS = ["identifiers are [A-Za-z][A-Za-z0-9_]*; statement labels are 1-5 digits"]
 
